@@ -1,12 +1,65 @@
-(* C02 — cycles through negation are rejected, never answered (statements only). *)
+(* C02 — programs with a cycle through negation are rejected, never answered.
+   Semantic side.  Only statements; proofs in Sem/StratProofs.v. *)
 From Coq Require Import NArith QArith List Bool.
-From PL.Sem Require Import Program Sem.
+From PL.Sem Require Import Program Sem SemBasics StratProofs.
 Import ListNotations.
 
-(* non-vacuity: p :- \+q. q :- \+p.  has a negative cycle and its single world is three-valued *)
+(* If the ground dependency graph has no cycle through negation, the well-founded model of EVERY
+   world (total choice) is two-valued: no atom is undefined. *)
+Theorem C02_stratified_two_valued : forall cs,
+  neg_cycle_free gatom gatom_eqb cs = Some true ->
+  forall w0 wt rules, In (wt, rules) (worlds gatom cs [] w0) ->
+  forall U m, wfm gatom gatom_eqb rules U = Some m -> two_valued gatom gatom_eqb m = true.
+Proof. exact (neg_cycle_free_two_valued gatom gatom_eqb gatom_eqb_spec). Qed.
+Print Assumptions C02_stratified_two_valued.
+
+(* The boolean test computes a stratification (level mapping) of the ground program ... *)
+Theorem C02_neg_cycle_free_stratified : forall cs,
+  neg_cycle_free gatom gatom_eqb cs = Some true -> exists lvl, stratified_prog gatom lvl cs.
+Proof. exact (neg_cycle_free_stratified gatom gatom_eqb gatom_eqb_spec). Qed.
+Print Assumptions C02_neg_cycle_free_stratified.
+
+(* ... and decides the graph property "some negative edge h -neg-> b closes a cycle (b = h or b reaches h)". *)
+Theorem C02_neg_cycle_free_dec_true : forall E,
+  neg_cycle_free_E gatom gatom_eqb E = Some true -> ~ neg_cycle gatom E.
+Proof. exact (neg_cycle_free_true_sound gatom gatom_eqb gatom_eqb_spec). Qed.
+Print Assumptions C02_neg_cycle_free_dec_true.
+
+Theorem C02_neg_cycle_free_dec_false : forall E,
+  neg_cycle_free_E gatom gatom_eqb E = Some false -> neg_cycle gatom E.
+Proof. exact (neg_cycle_free_false_complete gatom gatom_eqb gatom_eqb_spec). Qed.
+Print Assumptions C02_neg_cycle_free_dec_false.
+
+(* The classes are disjoint in substance: a must_answer program (no cycle through negation) is never
+   declared NotTwoValued by the semantics, i.e. Sem.prob returns a number or Inconsistent. *)
+Theorem C02_must_answer_is_answered : forall cs ev q,
+  neg_cycle_free gatom gatom_eqb cs = Some true -> prob_gen gatom gatom_eqb cs ev q <> NotTwoValued.
+Proof. exact (neg_cycle_free_not_NotTwoValued gatom gatom_eqb gatom_eqb_spec). Qed.
+Print Assumptions C02_must_answer_is_answered.
+
+(* Stratification by an arbitrary level mapping is enough (used for predicate-level strata). *)
+Theorem C02_level_mapping_two_valued : forall lvl rules U T Uk,
+  stratified_by gatom lvl rules -> wfm gatom gatom_eqb rules U = Some (T, Uk) -> incl Uk T.
+Proof. exact (stratified_two_valued gatom gatom_eqb gatom_eqb_spec). Qed.
+Print Assumptions C02_level_mapping_two_valued.
+
+(* NOT proved: (1) that the fuel 2+|U| always suffices (the iterations test convergence and return an
+   explicit OutOfFuel otherwise; the oracle reports it and the check treats it as broken machinery);
+   (2) C02_answer_is_C01 : must_answer P -> infer_m P q = Sem.prob P q  (needs the pipeline model of C01);
+   (3) SemFast.fast_classify = Sem.classify (tied by the differential self-check of the C02 run). *)
+
+(* non-vacuity *)
+Example C02_example_stratified :
+  neg_cycle_free gatom gatom_eqb
+    [AD [(1#2, (1%N, []))] []; Rule (2%N, []) [Neg (1%N, [])]; Rule (3%N, []) [Pos (3%N, []); Neg (2%N, [])]] = Some true.
+Proof. vm_compute. reflexivity. Qed.
+
+(* p :- \+q. q :- \+p.  has a negative cycle, its world is three-valued; relevant => must_reject, irrelevant => either *)
 Example C02_example_loop :
   let cs := [Rule (1%N, []) [Neg (2%N, [])]; Rule (2%N, []) [Neg (1%N, [])]] in
   neg_cycle_free gatom gatom_eqb cs = Some false /\
+  (exists m, wfm gatom gatom_eqb [((2%N, []), [Neg (1%N, [])]); ((1%N, []), [Neg (2%N, [])])] (universe gatom gatom_eqb cs) = Some m
+             /\ two_valued gatom gatom_eqb m = false) /\
   classify gatom gatom_eqb cs [(1%N, [])] = MustReject /\
   classify gatom gatom_eqb cs [(3%N, [])] = Either.
-Proof. vm_compute. repeat split. Qed.
+Proof. vm_compute. repeat split. eexists. split; reflexivity. Qed.
